@@ -57,6 +57,10 @@ func Harness_C13_tree_stays_well_formed() {
 		v.rootOnly()
 	}
 	v.Env.AddEntry("/d", tar.TypeDir, 0, false, "")
+	if vm.Bool("olderTombstoneInDirectory") {
+		// an entry of /d that was removed earlier: its row is older than the rows of /d's live entries
+		v.Env.AddEntry("/d/0", tar.TypeReg, 0, true, "")
+	}
 	v.Env.AddEntry("/f", tar.TypeReg, 0, false, "")
 	v.Env.AddEntry("/d/g", tar.TypeReg, 0, false, "")
 	v.Env.AddEntry("/d/s", tar.TypeDir, 0, false, "")
@@ -82,8 +86,13 @@ func Harness_C13_tree_stays_well_formed() {
 		name = "." + name
 	}
 	var err error
-	op := vm.Choice("op", 6)
+	op := vm.Choice("op", 8)
 	switch op {
+	case 6:
+		// a directory goes with everything below it
+		err = v.FS.RemoveAll("/d")
+	case 7:
+		err = v.FS.Remove("/d/s")
 	case 0:
 		err = v.FS.Mkdir(name, 0o755)
 	case 1:
